@@ -3,7 +3,7 @@
     Decoding of cases and encoding of results is Gallina, so it is the same code
     in both paths. *)
 From Coq Require Import String.
-From Cvg Require Import Base Cli Re Unicode Matcher.
+From Cvg Require Import Base Cli GoTypes Re Unicode Matcher Dump Options Front Builder Gen Pipeline.
 Open Scope N_scope.
 
 Definition sx_str (s : str) : sexp := Atom s.
@@ -150,6 +150,50 @@ Definition case_strfun (l : list sexp) : sexp :=
   | _ => sx_err "strfun"
   end.
 
+(** (gen <dump>): the pipeline up to the function texts *)
+Definition enc_event (e : event) : sexp :=
+  match e with
+  | EvStderr l => sx_tag "stderr" [Atom l]
+  | EvStdout l => sx_tag "stdout" [Atom l]
+  end.
+
+Fixpoint enc_assignment (a : assignment) : sexp :=
+  match a with
+  | ASkip l => sx_tag "skip" [Atom (matcher_expr l)]
+  | ANoMatch l => sx_tag "nomatch" [Atom (matcher_expr l)]
+  | ASimple l r err => sx_tag "assign" [Atom (matcher_expr l); Atom (rhs_string r); sx_bool err]
+  | ANest cs => sx_tag "nest" (List.map enc_assignment cs)
+  | ASlice l r t => sx_tag "slice" [Atom (matcher_expr l); Atom (assign_expr r); Atom t]
+  | ASliceLoop l r t => sx_tag "sliceloop" [Atom (matcher_expr l); Atom (assign_expr r); Atom t]
+  | ASliceCast l r t c => sx_tag "slicecast" [Atom (matcher_expr l); Atom (assign_expr r); Atom t; Atom c]
+  end.
+
+Definition enc_function (f : function) : sexp :=
+  sx_tag "func" [Atom (fn_name f); Atom (fn_receiver f); Atom (func_to_string f);
+                 SList (List.map enc_assignment (fn_assignments f)); Atom (func_header f)].
+
+Definition enc_block (b : block) : sexp :=
+  sx_tag "block" [sx_num (b_index b); Atom (if_name (b_decl b)); SList (List.map enc_function (b_funcs b))].
+
+Definition case_gen (l : list sexp) : sexp :=
+  match l with
+  | [dmp] =>
+      match dec_dump dmp with
+      | None => sx_err "dump"
+      | Some d =>
+          let po := run_pipeline d in
+          let evs := SList (List.map enc_event (po_events po)) in
+          match po_result po with
+          | Ok bs => sx_tag "ok" [evs; SList (List.map enc_block bs)]
+          | Err m => sx_tag "err" [evs; Atom m]
+          | Panic s => sx_tag "panic" [evs; Atom s]
+          | Fuel => sx_tag "fuel" [evs]
+          | Unsup w => sx_tag "unsup" [evs; Atom w]
+          end
+      end
+  | _ => sx_err "gen"
+  end.
+
 Definition run_case (e : sexp) : sexp :=
   match e with
   | SList (Atom tag :: rest) =>
@@ -159,6 +203,7 @@ Definition run_case (e : sexp) : sexp :=
       else if str_eqb tag (s2b "ident") then case_ident rest
       else if str_eqb tag (s2b "pmseq") then case_pmseq rest
       else if str_eqb tag (s2b "strfun") then case_strfun rest
+      else if str_eqb tag (s2b "gen") then case_gen rest
       else sx_err "unknown case tag"
   | _ => sx_err "case shape"
   end.
